@@ -5,6 +5,7 @@ import (
 	"errors"
 	"fmt"
 	"math"
+	"math/big"
 	"sort"
 	"strings"
 	"sync"
@@ -701,6 +702,66 @@ func (r *Runtime) typedArrayProto_forEach(call FunctionCall) Value {
 	panic(r.NewTypeError("Method TypedArray.prototype.forEach called on incompatible receiver %s", r.objectproto_toString(FunctionCall{This: call.This})))
 }
 
+// searchMatcher returns a predicate telling whether the element at (absolute) index idx equals v under
+// SameValueZero (sameValueZero == true, used by includes) or IsStrictlyEqual (indexOf, lastIndexOf).
+// It returns nil if no element of this array type can be equal to v. The comparison is made on values,
+// not on the converted bit pattern: converting the search element to the element type would make
+// e.g. 0.1 equal to a Float32Array element, -2n**64n equal to 0n, and -0 / NaN compare by encoding.
+func (ta *typedArrayObject) searchMatcher(v Value, sameValueZero bool) func(idx int) bool {
+	arr := ta.typedArray
+	switch arr.(type) {
+	case *float32Array, *float64Array:
+		var f float64
+		switch n := v.(type) {
+		case valueInt:
+			f = float64(n)
+		case valueFloat:
+			f = float64(n)
+		default:
+			return nil
+		}
+		_, is32 := arr.(*float32Array)
+		elem := func(idx int) float64 {
+			if is32 {
+				return float64(math.Float32frombits(uint32(arr.getRaw(idx))))
+			}
+			return math.Float64frombits(arr.getRaw(idx))
+		}
+		if math.IsNaN(f) {
+			if !sameValueZero {
+				return nil
+			}
+			return func(idx int) bool { return math.IsNaN(elem(idx)) }
+		}
+		return func(idx int) bool { return elem(idx) == f }
+	case *bigInt64Array:
+		b, ok := v.(*valueBigInt)
+		if !ok || !(*big.Int)(b).IsInt64() {
+			return nil
+		}
+		raw := uint64((*big.Int)(b).Int64())
+		return func(idx int) bool { return arr.getRaw(idx) == raw }
+	case *bigUint64Array:
+		b, ok := v.(*valueBigInt)
+		if !ok || !(*big.Int)(b).IsUint64() {
+			return nil
+		}
+		raw := (*big.Int)(b).Uint64()
+		return func(idx int) bool { return arr.getRaw(idx) == raw }
+	}
+	if f, ok := v.(valueFloat); ok {
+		// -0 and integral doubles compare equal to the integer elements
+		if ff := float64(f); ff == math.Trunc(ff) && math.Abs(ff) < 1<<53 {
+			v = valueInt(int64(ff))
+		}
+	}
+	if !arr.typeMatch(v) {
+		return nil
+	}
+	raw := arr.toRaw(v)
+	return func(idx int) bool { return arr.getRaw(idx) == raw }
+}
+
 func (r *Runtime) typedArrayProto_includes(call FunctionCall) Value {
 	if ta, ok := r.toObject(call.This).self.(*typedArrayObject); ok {
 		ta.viewedArrayBuf.ensureNotDetached(true)
@@ -719,9 +780,6 @@ func (r *Runtime) typedArrayProto_includes(call FunctionCall) Value {
 		}
 
 		searchElement := call.Argument(0)
-		if searchElement == _negativeZero {
-			searchElement = _positiveZero
-		}
 		startIdx := toIntStrict(n)
 		if !ta.viewedArrayBuf.ensureNotDetached(false) {
 			if searchElement == _undefined && startIdx < ta.length {
@@ -729,10 +787,9 @@ func (r *Runtime) typedArrayProto_includes(call FunctionCall) Value {
 			}
 			return valueFalse
 		}
-		if ta.typedArray.typeMatch(searchElement) {
-			se := ta.typedArray.toRaw(searchElement)
+		if match := ta.searchMatcher(searchElement, true); match != nil {
 			for k := startIdx; k < ta.length; k++ {
-				if ta.typedArray.getRaw(ta.offset+k) == se {
+				if match(ta.offset + k) {
 					return valueTrue
 				}
 			}
@@ -779,14 +836,9 @@ func (r *Runtime) typedArrayProto_indexOf(call FunctionCall) Value {
 		}
 
 		if ta.viewedArrayBuf.ensureNotDetached(false) {
-			searchElement := call.Argument(0)
-			if searchElement == _negativeZero {
-				searchElement = _positiveZero
-			}
-			if !IsNaN(searchElement) && ta.typedArray.typeMatch(searchElement) {
-				se := ta.typedArray.toRaw(searchElement)
+			if match := ta.searchMatcher(call.Argument(0), false); match != nil {
 				for k := toIntStrict(n); k < ta.length; k++ {
-					if ta.typedArray.getRaw(ta.offset+k) == se {
+					if match(ta.offset + k) {
 						return intToValue(int64(k))
 					}
 				}
@@ -870,14 +922,9 @@ func (r *Runtime) typedArrayProto_lastIndexOf(call FunctionCall) Value {
 		}
 
 		if ta.viewedArrayBuf.ensureNotDetached(false) {
-			searchElement := call.Argument(0)
-			if searchElement == _negativeZero {
-				searchElement = _positiveZero
-			}
-			if !IsNaN(searchElement) && ta.typedArray.typeMatch(searchElement) {
-				se := ta.typedArray.toRaw(searchElement)
+			if match := ta.searchMatcher(call.Argument(0), false); match != nil {
 				for k := toIntStrict(fromIndex); k >= 0; k-- {
-					if ta.typedArray.getRaw(ta.offset+k) == se {
+					if match(ta.offset + k) {
 						return intToValue(int64(k))
 					}
 				}
